@@ -55,6 +55,10 @@ EXC_SPECS = [
     ('Boom', ('a', 1), None), ('Boom2', (1, 2), None), ('ReduceExc', (7, 'detail'), None), ('KwOnlyExc', (), {'reason': 'why'}), ('Reject', ('r',), None),
     ('AttrExc', ('p',), None), ('NoArgsExc', (), None), ('StrSubExc', ('sub',), None), ('LookupError', (ValueError('inner'),), None),
     ('KeepsCause', ('kc', 1), None),
+    # message texts that no codec round-trips by default: lone surrogates (undecodable file names via os.fsdecode, json '\\ud83d'), NUL, astral
+    # characters, line separators inside the message
+    ('ValueError', ('cannot parse report-\udcff\udcfe.csv',), None), ('RuntimeError', ('half a pair \ud83d here',), None),
+    ('ValueError', ('nul \x00 inside, emoji \U0001f600, line sep \u2028 and\nnewline',), None),
 ]
 LOCAL = {'AttrExc': AttrExc, 'NoArgsExc': NoArgsExc, 'StrSubExc': StrSubExc, 'KeepsCause': KeepsCause}
 
